@@ -179,6 +179,85 @@ theorem aux_total (n : Nat) (s1 s2 : Str) (acc : List (Str × Str)) : aux n s1 s
                     · simp
                   · simp [hm0]
 
+/-- adequacy of the recursion bound: with more fuel than `s1` is long the bound is never hit -/
+theorem aux_fuel (n : Nat) (s1 s2 : Str) (acc : List (Str × Str)) (hn : s1.length < n) : aux n s1 s2 acc ≠ .fuel := by
+  induction n generalizing s1 s2 acc with
+  | zero => omega
+  | succ n ih =>
+    unfold aux
+    cases hs : indexOf dollarBrace s1 with
+    | none => simp
+    | some start =>
+      simp only
+      have hsl := indexOf_le _ _ _ hs
+      simp only [dollarBrace, List.length_cons, List.length_nil] at hsl
+      by_cases hlen : s2.length < start
+      · simp [hlen]
+      · simp only [hlen, if_false]
+        rw [slice_some s1 0 start (by omega) (by omega), slice_some s2 0 start (by omega) (by omega)]
+        simp only
+        split
+        · simp
+        · cases he : indexOf closeBrace s1 with
+          | none => simp
+          | some e =>
+            simp only
+            have hel := indexOf_le _ _ _ he
+            simp only [closeBrace, List.length_cons, List.length_nil] at hel
+            by_cases hes : e < start
+            · simp [hes]
+            · simp only [hes, if_false]
+              have h2 := close_after_open s1 start e hs he (by omega)
+              rw [slice_some s1 (e + 1) s1.length (by omega) (by omega)]
+              simp only
+              cases hn : indexOf dollarBrace ((s1.drop (e + 1)).take (s1.length - (e + 1))) with
+              | none =>
+                simp only
+                split
+                · simp
+                · rename_i hl
+                  have hrl : ((s1.drop (e + 1)).take (s1.length - (e + 1))).length = s1.length - (e + 1) := by simp
+                  rw [hrl] at hl ⊢
+                  rw [slice_some s2 (s2.length - (s1.length - (e + 1))) s2.length (by omega) (by omega)]
+                  simp only
+                  split
+                  · rw [slice_some s1 (start + 2) e (by omega) (by omega),
+                      slice_some s2 start (s2.length - (s1.length - (e + 1))) (by omega) (by omega)]
+                    simp only
+                    split <;> simp
+                  · simp
+              | some next =>
+                simp only
+                have hnl := indexOf_le _ _ _ hn
+                have hrl : ((s1.drop (e + 1)).take (s1.length - (e + 1))).length = s1.length - (e + 1) := by simp
+                rw [hrl] at hnl
+                simp only [dollarBrace, List.length_cons, List.length_nil] at hnl
+                rw [slice_some s1 (e + 1) (e + 1 + next) (by omega) (by omega),
+                  slice_some s2 start s2.length (by omega) (by omega)]
+                simp only
+                cases hm : indexOf ((s1.drop (e + 1)).take (e + 1 + next - (e + 1))) ((s2.drop start).take (s2.length - start)) with
+                | none => simp
+                | some m =>
+                  simp only
+                  by_cases hm0 : m > 0
+                  · simp only [hm0, if_true]
+                    have hml := indexOf_le _ _ _ hm
+                    have : ((s2.drop start).take (s2.length - start)).length = s2.length - start := by simp
+                    rw [this] at hml
+                    rw [slice_some s1 (start + 2) e (by omega) (by omega),
+                      slice_some s2 start (start + m) (by omega) (by omega),
+                      slice_some s2 (start + m) s2.length (by omega) (by omega)]
+                    simp only
+                    split
+                    · apply ih
+                      simp only [List.length_take, List.length_drop]
+                      omega
+                    · simp
+                  · simp [hm0]
+
+
+theorem gen_fuel (s1 s2 : Str) : gen s1 s2 ≠ .fuel := aux_fuel _ _ _ _ (by omega)
+
 theorem gen_total (s1 s2 : Str) : gen s1 s2 ≠ .panic := aux_total _ _ _ _
 
 
